@@ -397,3 +397,19 @@ def run(ctx, rep):
         c05.check_discretized(ctx, RuleProxy(rep, 'C01.N', 'site-rates::'))
     except Unsupported as u:
         rep.undecided('C01.N', 'site-rates', '', str(u))
+    # C01.H — the likelihood is that of the CURRENT branch lengths, rates and substitution parameters: the models it reads mark every cache dirty when a parameter
+    # they listen to changes (C11.H rules on exactly these classes)
+    from props import c11
+    from sa.members import Kinds
+    rep.rule('C01.H', "the tree, clock, site and substitution models the likelihood reads, and the likelihood model itself, invalidate their caches and pass the event on "
+                      "whenever a parameter or model they listen to changes (C11.H rules on these classes)")
+    kinds = Kinds(ctx.classes)
+    nh = 0
+    for cls in sorted(ctx.classes.classes.values(), key=lambda c: c.qualname):
+        mn = cls.module.name
+        if (mn.startswith('torchtree.evolution.tree_model') or mn in ('torchtree.evolution.branch_model', 'torchtree.evolution.site_model', 'torchtree.evolution.tree_likelihood')
+                or mn.startswith('torchtree.evolution.substitution_model')) and not cls.is_abstract() and cls.has_base('torchtree.core.parametric.Parametric'):
+            nh += 1
+            c11.check_handlers(ctx, RuleProxy(rep, 'C01.H', 'handlers::'), kinds, cls)
+    if nh < 15:
+        rep.incomplete('C01.H', '*', '', f"only {nh} model classes found")
